@@ -1,6 +1,8 @@
 """Registry: property id -> Lean modules, generated inputs, correspondence streams, trusted base."""
 import s_codec
 import s_keepalive
+import s_wire
+import s_init
 
 KERNEL = "Lean 4.33.0 kernel; axioms limited to propext, Classical.choice, Quot.sound (audited with #print axioms on every run)"
 HARNESS = "the correspondence harness (generators, canonicalisation) in /verif/harness"
@@ -33,5 +35,34 @@ PROPS = {
                         "Server._change_keep_alive reaches the writer through _RequestManager.change_keep_alive (checked by the C13 co-simulation)"],
         "rule": "grid: configured in {None,-1,-0.5,0,1/8,1/2,1,1.5,5,10,12,3600} x hints {absent, negative, 0, boundaries around "
                 "1000/10000/configured*1000, large, decimal-string forms, random k/8}; both server kinds; non-trivial = positive hint (distinct (kind,cfg,hint))",
+    },
+    "C08": {
+        "lean": ["AriVerif.Props.C08"],
+        "gen": ["Exc"],
+        "streams": [s_wire.stream_exc, s_wire.stream_meta],
+        "trusted": [KERNEL, HARNESS, "harness/extract.py for Gen/Exc.lean (tables read off the AST: _EXCEPTIONS_MAP, class statements, "
+                    "designated classes per write_* function), mitigated by the full-matrix differential",
+                    "Spec.ariCode (the designation table) is hand-written from the property text and the adapters' :raises clauses",
+                    "modelled, not verified: Python's `except (classes)` matching = 'some class of the MRO is designated'; str(type(e)) lookup = exact class"],
+        "assumptions": ["single inheritance among exception classes (the translator rejects multiple inheritance in interfaces/*.py)",
+                        "exception payload attributes are well-typed (int code, str/None messages)"],
+        "rule": "every (method, class) pair of the 18 x 16 matrix (10 library classes, RuntimeError, ValueError, KeyError, a user-defined "
+                "Exception subclass, user-defined subclasses of CreditsError and SubscribeError) x payload samples from the C05 domain; "
+                "plus the Metadata closures with raising adapters; non-trivial = distinct (method, class, line)",
+    },
+    "C11": {
+        "lean": ["AriVerif.Props.C11"],
+        "gen": ["Version", "KeepAlive"],
+        "streams": [s_init.stream_init],
+        "trusted": [KERNEL, HARNESS, "harness/extract.py for Gen/Version.lean (both getSupportedVersion, prologue and epilogue of _on_init, "
+                    "shape checks of the statements in between), mitigated by the version-grid differential",
+                    "Ari.onInit (hand-written composition: dict handling, order of calls) is tied by the init differential only",
+                    "modelled, not verified: Python dict semantics (insertion order, update), str.startswith"],
+        "assumptions": ["version-refusal replies are compared up to their message text (generic error `<M>|E|...`)",
+                        "the hint token's numeric value is supplied to the model by the harness (float() is CPython's)"],
+        "rule": "33 version strings (absent, 1.8.x / 1.9.x / 1.10.x / 2.x patterns, near-misses, text, non-ASCII) x both kinds x random Proxy maps "
+                "(0-5 extra pairs, duplicate and shuffled reserved keys), local maps incl. reserved keys, config file set or not, initialize / "
+                "set_listener outcomes {ok, provider error, other library errors, other exceptions}, malformed init requests; "
+                "non-trivial = distinct (kind, version, outcome line)",
     },
 }
